@@ -90,6 +90,12 @@ class IterInterp(Interp):
             return [v] * n
         if t == "Unary" and e["op"] == "*":
             return self.eval(e["expr"], env)
+        if t == "Range":
+            lo = self.eval(e["start"], env) if e.get("start") else 0
+            hi = self.eval(e["end"], env) if e.get("end") else None
+            if not isinstance(lo, int) or not isinstance(hi, int):
+                raise Unanalysable("range over non-integers")
+            return list(range(lo, hi + 1 if e.get("closed") else hi))
         return super().eval(e, env)
 
     def match(self, pat, val, env):
@@ -113,7 +119,42 @@ class IterInterp(Interp):
             return not val.fields and val.name.split("::")[-1] == name.split("::")[-1]
         raise Unanalysable(f"pattern {name} against {val!r}")
 
+    def assign_place(self, place, value, env, node):
+        pl = strip_paren(place)
+        if pl["t"] == "Index":
+            base = self.eval(pl["expr"], env)
+            idx = self.eval(pl["index"], env)
+            if isinstance(base, list) and isinstance(idx, int) and not isinstance(idx, bool):
+                if not 0 <= idx < len(base):
+                    from rusteval import Reached
+                    raise Reached(f"index {idx} out of bounds (len {len(base)})", node)
+                base[idx] = value
+                return
+            raise Unanalysable("assignment through an index the rule does not model")
+        if pl["t"] == "Unary" and pl["op"] == "*":
+            return self.assign_place(pl["expr"], value, env, node)
+        super().assign_place(place, value, env, node)
+
     def method(self, recv, name, targs, args, node):
+        if isinstance(recv, list) and name in ("push", "resize", "clear", "truncate", "extend", "fill"):
+            if name == "push":
+                recv.append(args[0])
+            elif name == "resize" and isinstance(args[0], int):
+                del recv[args[0]:]
+                recv.extend([args[1]] * (args[0] - len(recv)))
+            elif name == "clear":
+                del recv[:]
+            elif name == "truncate" and isinstance(args[0], int):
+                del recv[args[0]:]
+            elif name == "extend" and isinstance(args[0], list):
+                recv.extend(args[0])
+            elif name == "fill":
+                recv[:] = [args[0]] * len(recv)
+            else:
+                raise Unanalysable(f"list .{name}()")
+            return UNIT
+        if isinstance(recv, int) and not isinstance(recv, bool) and name in ("wrapping_add_signed", "checked_add_signed", "saturating_add_signed") and isinstance(args[0], int):
+            return recv + args[0] if name != "checked_add_signed" else (Some(recv + args[0]) if recv + args[0] >= 0 else NONE)
         if isinstance(recv, list):
             if name in ("iter", "into_iter", "iter_mut", "copied", "cloned", "by_ref", "as_slice", "to_vec", "collect"):
                 return list(recv)
